@@ -65,21 +65,22 @@ Theorem C04_refuted_path_param_names :
   validate_doc o0 d = true /\ conforms o0 XN d = false.
 Proof. vm_compute. split; reflexivity. Qed.
 
-(* /a/{x} and /a/{y} are one template; the conflicting-paths rule never fires (the map is keyed by
-   the raw path, looked up by the normalised one) *)
-Theorem C04_refuted_conflicting_templates :
+(* /a/{x} and /a/{y} are one template: rejected (the rule never fired until the lookup key was
+   repaired in /repo; this was the refuted witness C04_refuted_conflicting_templates) *)
+Example C04_conflicting_templates_rejected :
   let d := mk_doc [("items", "/a/{x}", item [path_param "x"]); ("items", "/a/{y}", item [path_param "y"])] in
-  validate_doc o0 d = true /\ conforms o0 XN d = false.
+  validate_doc o0 d = false /\ conforms o0 XN d = false.
 Proof. vm_compute. split; reflexivity. Qed.
 
-(* an unknown member of a header object is not looked at (Header.Validate does not call
-   validateExtensions), nor is a header example compared with the header schema *)
-Theorem C04_refuted_header_extra_field :
+(* an unknown member of a header object is rejected (Header.Validate did not call validateExtensions
+   nor compare examples with the schema until it was repaired in /repo; this was the refuted witness
+   C04_refuted_header_extra_field) *)
+Example C04_header_extra_field_rejected :
   let h := DN "Header" RNone [("#unknown", JArr [JStr "bogus"])] [("schema", "", DN "Schema" RNone [("type", JStr "string"); ("#unknown", JArr [])] [])] in
   let resp := DN "Response" RNone [("#has_description", JBool true); ("#unknown", JArr [])] [("headers", "X-H", h)] in
   let op := DN "Operation" RNone [("#unknown", JArr [])] [("responses", "", DN "Responses" RNone [("#unknown", JArr [])] [("items", "200", resp)])] in
   let d := mk_doc [("items", "/a", DN "PathItem" RNone [("#unknown", JArr [])] [("operations", "get", op)])] in
-  validate_doc o0 d = true /\ conforms o0 XN d = false.
+  validate_doc o0 d = false /\ conforms o0 XN d = false.
 Proof. vm_compute. split; reflexivity. Qed.
 
 (* the example mode is written into the options struct: without options it is lost (an example with
